@@ -10,5 +10,8 @@ CONSTANTS
   MaxVers = 1
   MaxMut = 3
   MaxMoves = 3
+  InitKeys <- NoKeys
+  InitVal = "a"
+  Put2 = TRUE
 INVARIANTS IterOK SizeOK
 PROPERTIES Persistent
